@@ -10,6 +10,7 @@ import Driver.Countdown
 import Driver.Debounce
 import Driver.CfgStore
 import Driver.Update
+import Driver.Form
 
 def main (args : List String) : IO UInt32 := do
   match args with
@@ -25,4 +26,5 @@ def main (args : List String) : IO UInt32 := do
   | ["debounce"] => Driver.DebounceDrv.main; return 0
   | ["cfgstore"] => Driver.CfgStoreDrv.main; return 0
   | ["update"] => Driver.UpdateDrv.main; return 0
+  | ["form"] => Driver.FormDrv.main; return 0
   | _ => IO.eprintln "usage: svdrv <subsystem>"; return 2
